@@ -3,6 +3,7 @@
 from cpython.exc cimport PyErr_NoMemory
 from cpython.mem cimport PyMem_Free, PyMem_Malloc, PyMem_Realloc
 from cpython.unicode cimport (
+    PyUnicode_1BYTE_KIND,
     PyUnicode_DATA,
     PyUnicode_DecodeASCII,
     PyUnicode_DecodeUTF8Stateful,
@@ -221,12 +222,27 @@ cdef class _Quoter:
 
     cdef str _do_quote_or_skip(self, str val):
         cdef Py_UCS4 ch
-        cdef Py_ssize_t length = PyUnicode_GET_LENGTH(val)
-        cdef Py_ssize_t idx = length
+        cdef Py_ssize_t length
+        cdef Py_ssize_t idx
         cdef bint must_quote = 0
         cdef Writer writer
-        cdef int kind = PyUnicode_KIND(val)
-        cdef const void *data = PyUnicode_DATA(val)
+        cdef int kind
+        cdef const void *data
+
+        if PyUnicode_KIND(val) != PyUnicode_1BYTE_KIND:
+            # Only strings wider than one byte per character can hold lone
+            # surrogates.  They cannot be encoded and are dropped; do it up
+            # front, as the pure-Python quoter does, so that the result never
+            # depends on a surrogate sitting next to a "%".
+            for ch in val:
+                if 0xD800 <= ch <= 0xDFFF:
+                    val = val.encode("utf8", "ignore").decode("utf8")
+                    break
+
+        length = PyUnicode_GET_LENGTH(val)
+        idx = length
+        kind = PyUnicode_KIND(val)
+        data = PyUnicode_DATA(val)
 
         # If everything in the string is in the safe
         # table and all ASCII, we can skip quoting
